@@ -200,12 +200,12 @@ Proof.
     eapply extends_trans; [exact Hc0|]. eapply extends_trans; [apply (extends_set_apos c0)|].
     eapply extends_trans; [exact F1 | apply extends_taint].
 Qed.
-(* by the definition (S) the list must be there *)
-Theorem iteration_needs_its_list : forall fuel rec colon ps c c' a,
-  dir_iter false fuel rec colon false ps c = Ok (c', a) -> arg_at c <> None.
+(* the list must be there, for both readings (the model since repo_fixes/C15-14) *)
+Theorem iteration_needs_its_list : forall b fuel rec colon ps c c' a,
+  dir_iter b fuel rec colon false ps c = Ok (c', a) -> arg_at c <> None.
 Proof.
-  intros fuel rec colon ps c c' a H Hn. unfold dir_iter in H.
-  destruct (block_extent false c "{" "}" true) as [r t] eqn:Eb.
+  intros b fuel rec colon ps c c' a H Hn. unfold dir_iter in H.
+  destruct (block_extent b c "{" "}" true) as [r t] eqn:Eb.
   destruct r as [[[e once] next]| | |]; try discriminate.
   assert (Ha0 : arg_at (add_taint (set_pos c next) t) = None) by exact Hn.
   destruct (get_int 0 ps max_int true) as [n| |]; try discriminate.
@@ -215,11 +215,11 @@ Qed.
 
 (* ---- ~? : recursive processing ------------------------------------------------------------------------------ *)
 (* ~? takes two arguments, the control string and the list of its arguments, whatever that control string does *)
-Theorem indirection_consumes_two : forall b rec c c' a v, arg_at c = Some v ->
-  dir_proc b rec false c = Ok (c', a) ->
+Theorem indirection_consumes_two : forall rec c c' a v, arg_at c = Some v ->
+  dir_proc rec false c = Ok (c', a) ->
   a = false /\ c_apos c' = (c_apos c + 2)%Z /\ (exists s, v = VStr s) /\ c_args c' = c_args c.
 Proof.
-  intros b rec c c' a v Hv H. unfold dir_proc in H.
+  intros rec c c' a v Hv H. unfold dir_proc in H.
   destruct (c_apos c <? 0)%Z; [discriminate|]. rewrite Hv in H.
   destruct v; try discriminate.
   set (c1 := set_apos c (c_apos c + 1)) in *.
@@ -282,9 +282,6 @@ Definition deviation_witnesses : list (string * list value) := [
   ("~T|", []);
   ("~:*~A", [VInt 1]);                                                (* cursor before the first argument *)
   ("~A~5*", [VInt 1]);                                                (* cursor beyond the last argument *)
-  ("~:[a~;b~]", []);                                                  (* missing arguments *)
-  ("~{~A~}", []);
-  ("~?|", []);
   ("~{~A~}}", [ints [1]]);                                            (* a brace after the block *)
   ("~{~2{~A~}|~}", [VList [ints [1; 2; 3]; ints [4; 5; 6]]]);         (* nested block with a parameter *)
   ("~{~{~A~:}|~}", [VList [ints [1]; ints [2]]]);                     (* nested ~:} *)
